@@ -65,7 +65,9 @@ def check_fragment(frag, sources, default_source):
             return None
         return ('C08:not_at_a_token', 'fragment %r carries %s:%s of %r but no token starts there (source: %r)' % (
             text[:20], line, col, src.path, src.text[off:off + 12]))
-    ok = (tok == want or tok == want.strip() or printing.CONT.sub('', tok) == want or
+    # (the source text there has to *begin with* the fragment's token: a string whose line continuations the
+    #  minifier removed is a different text from its source token and must not carry that token's position)
+    ok = (tok == want or tok == want.strip() or
           (want and set(want) == {','} and tok == ','))
     if not ok:
         if text == ';' and off in src.synth:
